@@ -28,14 +28,19 @@ class Obj:
         return self is o
 
 
+class StandIn:
+    """base class of hand-written stand-in objects whose own methods may be called by the interpreted code"""
+
+
 class Runner:
     """runs functions of `model` abstractly.
     enter : set of qnames whose bodies are interpreted when called
     hook  : hook(runner, ev, call_node, callee_name, recv, args, kwargs) -> value | NotImplemented
     """
 
-    def __init__(self, ctx, enter, hook):
+    def __init__(self, ctx, enter, hook, asserts=False):
         self.ctx, self.enter, self.user_hook = ctx, set(enter), hook
+        self.asserts = asserts
         self.trace = []
 
     def call_fn(self, fn, args, kwargs=None):
@@ -62,8 +67,18 @@ class Runner:
             env[p.arg] = kwargs.get(p.arg, Ev({}).ev(d) if d is not None else None)
         for cname in self.ctx.model.classes:
             env.setdefault(cname, Obj("class:" + cname))
-        ev = Ev(env, hook=lambda e, c: self._hook(fn, e, c), attr_hook=self._attr)
+        ev = Ev(env, hook=lambda e, c, a, k: self._hook(fn, e, c, a, k), attr_hook=self._attr, asserts=self.asserts,
+                store_hook=self._store)
         return ev.run(fn.node.body)
+
+    def _store(self, ev, target, value):
+        base = ev.ev(target.value)
+        if isinstance(base, Obj):
+            base.__dict__[target.attr] = value
+        elif isinstance(base, StandIn):
+            setattr(base, target.attr, value)
+        else:
+            raise Undecided("attribute store on " + U(target))
 
     def _attr(self, ev, node):
         base = ev.ev(node.value)
@@ -71,14 +86,14 @@ class Runner:
             if node.attr in base.__dict__:
                 return base.__dict__[node.attr]
             raise Undecided(f"attribute {node.attr} of abstract object {base}")
+        if isinstance(base, StandIn) and hasattr(base, node.attr):
+            return getattr(base, node.attr)
         if isinstance(base, tuple) and hasattr(base, node.attr):
             return getattr(base, node.attr)
         return NotImplemented
 
-    def _hook(self, fn, ev, call):
+    def _hook(self, fn, ev, call, args, kwargs):
         f = call.func
-        args = [ev.ev(a) for a in call.args]
-        kwargs = {k.arg: ev.ev(k.value) for k in call.keywords if k.arg}
         # repo function by resolved target
         inf = self.ctx.typer.of(fn)
         tgs = [t for t in inf.targets(call) if t.qname in self.enter]
@@ -98,6 +113,8 @@ class Runner:
             r = self.user_hook(self, ev, call, name, recv, args, kwargs)
             if r is not NotImplemented:
                 return r
+        if isinstance(recv, StandIn) and isinstance(f, ast.Attribute) and hasattr(recv, f.attr):
+            return getattr(recv, f.attr)(*args, **kwargs)
         if tgs:
             if len(tgs) > 1:
                 raise Undecided(f"ambiguous callee for {U(call)[:40]}")
